@@ -159,7 +159,25 @@ pub fn run(words: &[&str], ctx: &mut Ctx) -> String {
     // a second keyspace with the SAME table names and the partitioners the other way round (a keyspace-blind join of
     // scylla_tables with the tables would swap them): ks2.t is a CDC table, ks2.t_scylla_cdc_log is not
     register("ks2.t", CDC_NAME);
-    let shape = Shape { nodes: 1, dcs: 1, racks: 1, shards: 0, msb: 12, vnodes: 4, strat: Strat::Simple(1), seed };
+    // a materialized view ks.t_by_v of ks.t; scylla_tables reports the CDC partitioner for it (no real view has one:
+    // it makes visible that neither extract_partitioner_name nor lookup_table_meta ever reads `keyspace.views`)
+    register("ks.t_by_v", CDC_NAME);
+    {
+        let mut views = VIEWS.lock().unwrap();
+        if !views.iter().any(|(k, v, _)| k == "ks" && v.name == "t_by_v") {
+            views.push((
+                "ks".to_owned(),
+                TableSpec {
+                    name: "t_by_v".into(),
+                    partition_key: vec![("pk".into(), "blob".into())],
+                    clustering: vec![("v".into(), "int".into())],
+                    regular: vec![],
+                },
+                "t".to_owned(),
+            ));
+        }
+    }
+    let shape = Shape { nodes: 3, dcs: 1, racks: 1, shards: 0, msb: 12, vnodes: 4, strat: Strat::Simple(1), seed };
     let mut topo = shape.topology();
     topo.keyspaces[0].tables.push(table("t_scylla_cdc_log", "cdc$stream_id"));
     topo.keyspaces[0].tables.push(table("m3", "pk"));
@@ -191,8 +209,15 @@ pub fn run(words: &[&str], ctx: &mut Ctx) -> String {
                 }
                 None => vec![act_error(0x2000, "syntax", &[])],
             },
+            // EXECUTE: one row; a paged request (page size set) gets a second page
+            Parsed::Execute { params, .. } => {
+                let more = params.page_size.is_some() && params.paging_state.is_none();
+                let row = vec![params.values.first().cloned().flatten(), c_int(1)];
+                vec![Act::Respond(RESP_RESULT, rows_body(&row_specs(), !params.skip_metadata, if more { Some(&b"p2"[..]) } else { None }, &[row]))]
+            }
             _ => vec![act_void()],
         });
+        let nodes_for_oracle = topo.nodes.clone();
         let cluster = MockCluster::start(topo, handler).await;
         // schema=0: no schema; 1: full schema; 2: SchemaMetadataFetchLevel::Minimal (names + partitioners only)
         let session = match connect_with(&cluster, false, |b| b.fetch_schema_metadata(schema >= 1).fetch_full_schema_metadata(schema == 1)).await {
@@ -229,6 +254,9 @@ pub fn run(words: &[&str], ctx: &mut Ctx) -> String {
             }
         }
         let mut out = format!("schema={} snap={}", schema, if snap.is_empty() { "-".to_owned() } else { snap.join(",") });
+        // evidence only: the views the session knows (they live in `keyspace.views`, which no token path reads)
+        let known_views: Vec<String> = cs.get_keyspace("ks").map(|k| { let mut v: Vec<String> = k.views.keys().map(|n| format!("ks.{n}")).collect(); v.sort(); v }).unwrap_or_default();
+        out.push_str(&format!(" views={}", if known_views.is_empty() { "-".to_owned() } else { known_views.join(",") }));
 
         let targets = [
             ("t", "ks", "t"),
@@ -239,6 +267,7 @@ pub fn run(words: &[&str], ctx: &mut Ctx) -> String {
             ("nks", "nks", "x_scylla_cdc_log"),
             ("k2t", "ks2", "t"),
             ("k2log", "ks2", "t_scylla_cdc_log"),
+            ("view", "ks", "t_by_v"),
         ];
         for (label, ks, t) in targets {
             let text = format!("SELECT v FROM {ks}.{t} WHERE pk = ?");
@@ -263,7 +292,7 @@ pub fn run(words: &[&str], ctx: &mut Ctx) -> String {
                     "statement on {ks}.{t}: partitioner is {}, expected {} (scylla_tables partitioner: {})",
                     if is_cdc { "CDC" } else { "Murmur3" },
                     if expect_cdc { "CDC" } else { "Murmur3" },
-                    match label { "cdclog" | "k2t" => CDC_NAME, "m3" => M3_NAME, "unk" => UNK_NAME, "t" | "k2log" => "null", _ => "table not in the snapshot" }
+                    match label { "cdclog" | "k2t" => CDC_NAME, "m3" => M3_NAME, "unk" => UNK_NAME, "t" | "k2log" => "null", "view" => "a materialized view (not in keyspace.tables)", _ => "table not in the snapshot" }
                 ));
             }
             if schema == 0 && is_cdc {
@@ -313,6 +342,59 @@ pub fn run(words: &[&str], ctx: &mut Ctx) -> String {
                     Err(_) => ctx.fail(format!("CachingSession::add_prepared_statement of `{text}` failed")),
                 }
             }
+            // ROUTING of real executes (the call sites session.rs:1786, pager.rs:950 / 1105 pass the partitioner name as
+            // a separate argument): execute_unpaged and both pages of execute_iter must ARRIVE at the node owning the
+            // token of the statement's partitioner (RF 1, 3 nodes). Oracle only; echoed by the model.
+            if schema >= 1 && matches!(label, "t" | "cdclog" | "m3" | "k2t" | "k2log") {
+                let owner_tok = if is_cdc { server_cdc_token(&id) } else { Some(reference_murmur3(&id)) };
+                if let Some(owner_tok) = owner_tok {
+                    let owner = replicas(&nodes_for_oracle, &Strat::Simple(1), owner_tok).first().copied();
+                    let start = cluster.now();
+                    let r1 = session.execute_unpaged(&ps, (id.clone(),)).await;
+                    let mut pages = 0;
+                    if let Ok(pager) = session.execute_iter(ps.clone(), (id.clone(),)).await {
+                        use futures::StreamExt;
+                        if let Ok(mut rows) = pager.rows_stream::<(Vec<u8>, i32)>() {
+                            while let Some(r) = rows.next().await {
+                                if r.is_ok() {
+                                    pages += 1;
+                                }
+                            }
+                        }
+                    }
+                    let arrivals: Vec<(usize, bool, bool)> = cluster
+                        .user_frames()
+                        .into_iter()
+                        .filter(|f| f.seq >= start)
+                        .filter_map(|f| match &f.parsed {
+                            Parsed::Execute { params, .. } if params.values.first() == Some(&Some(id.clone())) => {
+                                Some((f.node, params.page_size.is_some(), params.paging_state.is_some()))
+                            }
+                            _ => None,
+                        })
+                        .collect();
+                    if r1.is_err() || pages != 2 || arrivals.len() != 3 {
+                        ctx.fail(format!("{ks}.{t}: executes did not complete (unpaged ok: {}, rows seen: {}, EXECUTE frames: {})", r1.is_ok(), pages, arrivals.len()));
+                    }
+                    for (node, paged, later) in &arrivals {
+                        if Some(*node) != owner {
+                            ctx.fail(format!(
+                                "{ks}.{t}: {} arrived at node {}, the {} token {} of the bound key is owned by node {:?}",
+                                match (paged, later) { (false, _) => "execute_unpaged", (true, false) => "execute_iter page 1", (true, true) => "execute_iter page 2" },
+                                node,
+                                if is_cdc { "CDC" } else { "Murmur3" },
+                                owner_tok,
+                                owner
+                            ));
+                        }
+                    }
+                    out.push_str(&format!(
+                        " ; route {ks} {t} owner={} arrivals={}",
+                        owner.map(|o| o.to_string()).unwrap_or_else(|| "-".into()),
+                        arrivals.iter().map(|a| a.0.to_string()).collect::<Vec<_>>().join(",")
+                    ));
+                }
+            }
             // ClusterState::compute_token (the path that bypasses PreparedStatement): same token for a table in the
             // snapshot, UnknownTable otherwise
             let ct = cs.compute_token(ks, t, &(id.clone(),));
@@ -321,7 +403,7 @@ pub fn run(words: &[&str], ctx: &mut Ctx) -> String {
                 let mut sv = scylla_cql_core::serialize::row::SerializedValues::new();
                 sv.add_value(&id, &scylla_cql::frame::response::result::ColumnType::Native(scylla_cql::frame::response::result::NativeType::Blob)).unwrap();
                 let pr = scylla::verif_hooks::prepared::compute_token_preserialized(&cs, ks, t, &sv);
-                let known = schema >= 1 && !matches!(label, "absent" | "nks");
+                let known = schema >= 1 && !matches!(label, "absent" | "nks" | "view");
                 match (&pr, known) {
                     (Ok(p), true) if Some(p.value()) == tok => {}
                     (Err(scylla::errors::ClusterStateTokenError::UnknownTable { .. }), false) => {}
@@ -332,7 +414,7 @@ pub fn run(words: &[&str], ctx: &mut Ctx) -> String {
                 }
                 out.push_str(&format!(" ; ptokp {ks} {t} {} {}", crate::util::hex(&id), show_ctok(&pr)));
             }
-            let in_snapshot = schema == 1 && !matches!(label, "absent" | "nks");
+            let in_snapshot = schema == 1 && !matches!(label, "absent" | "nks" | "view");
             if schema == 2 {
                 // Minimal level: tables are known by name and partitioner only; compute_token cannot serialize a key
                 out.push_str(&format!(" ; ctok {ks} {t} 1 {} {}", crate::util::hex(&id), show_ctok(&ct)));
